@@ -45,6 +45,8 @@ func Preset(prop string, adversarial bool, r *scen.Rand) *Params {
 		p.EditKinds = []string{"shuffle"}
 		p.RecordTasksP = 0.25
 		p.RecordCount = []int{1, 1, 2}
+		p.Counts = []int{1, 1, 2, 3} // replays with -count: every re-execution addresses the same slots
+		p.PreEditP = 0.08
 		p.ManyCallsP = 0.2
 		// some replays go through a Clean (sort / prune rewrite) first: "for all
 		// pre-existing well-formed contents of the snapshot file"
@@ -52,6 +54,7 @@ func Preset(prop string, adversarial bool, r *scen.Rand) *Params {
 		p.SortP = 0.7
 		p.ReplayP = 0.6
 	case "C02":
+		p.Counts = []int{1, 1, 1, 2, 3}
 		p.Alpha = Alpha{Plain: 5, Framing: 5, Structured: 2}
 		// mostly environments in which nothing may be updated; with UPDATE_SNAPS=true the calls
 		// through a Config with Update(false) are still read-only, next to neighbours that rewrite
@@ -79,6 +82,7 @@ func Preset(prop string, adversarial bool, r *scen.Rand) *Params {
 		p.TasksP = 0.25
 		p.ReplayP = 0.8
 	case "C04":
+		p.Counts = []int{1, 1, 1, 2, 3}
 		p.Alpha = Alpha{Plain: 7, Framing: 3, Structured: 2}
 		p.Envs = []map[string]string{envUpd, envUpd, envOff}
 		p.UpdateOpt = 0.4
@@ -86,6 +90,7 @@ func Preset(prop string, adversarial bool, r *scen.Rand) *Params {
 		p.EditValueP = 0.4
 		p.APIw = allAPIs(3, 2)
 		p.TasksP = 0.2 // updates from parallel tests must converge as well
+		p.PreEditP = 0.08
 		p.ReplayP = 1
 	case "C05":
 		p.Alpha = Alpha{Plain: 9, Framing: 1, Structured: 1}
@@ -116,7 +121,8 @@ func Preset(prop string, adversarial bool, r *scen.Rand) *Params {
 		p.RaceP = 0.5
 		p.L0P = 0.1
 		p.ReplayP = 0.9
-		p.APIw = allAPIs(4, 1)
+		p.APIw = allAPIs(4, 2)
+		p.RecordTasksP = 0.3 // first use of files and directories by several tests at once
 	case "C07":
 		p.NonTestNames = true
 		p.Alpha = Alpha{Plain: 9, Framing: 1, Structured: 1}
@@ -126,12 +132,14 @@ func Preset(prop string, adversarial bool, r *scen.Rand) *Params {
 		p.Counts = []int{1, 2, 3}
 		p.RunP = 0.4
 		p.TasksP = 0.2 // registrations made by parallel tests count as well
+		p.PreCorruptP = 0.06 // a damaged neighbour file must not cost an addressed entry of another file
 		p.CleanP = 1
 		p.SortP = 0.4
 		p.PreFilesP = 0.4
 		p.ReplayP = 0.8
 		p.APIw = allAPIs(3, 2)
 	case "C08":
+		p.Counts = []int{1, 1, 1, 2, 3}
 		p.Alpha = Alpha{Plain: 10, Framing: 0, Structured: 1}
 		p.Envs = []map[string]string{envOff, envClean, envUpd, envCI}
 		p.EditKinds = []string{"skip", "removecall"}
@@ -149,6 +157,7 @@ func Preset(prop string, adversarial bool, r *scen.Rand) *Params {
 		p.Envs = allEnvs
 		p.EditKinds = []string{"removecall", "removetest", "removesub", "skip", "addcall", "addtest", "retarget"}
 		p.FaultP = 0.1 // a directory that cannot be listed excuses that directory only
+		p.PreCorruptP = 0.06
 		p.Counts = []int{1, 2, 3}
 		p.CleanP = 1
 		p.SortP = 0.5
@@ -159,11 +168,14 @@ func Preset(prop string, adversarial bool, r *scen.Rand) *Params {
 		p.CleanAgainP = 0.3
 		p.APIw = allAPIs(3, 2)
 	case "C10":
+		p.Counts = []int{1, 1, 1, 2, 3}
 		p.Alpha = Alpha{Plain: 6, Framing: 4, Structured: 1}
 		p.Envs = []map[string]string{envOff, envClean, envUpd}
 		p.EditKinds = []string{"removecall", "removetest", "shuffle", "skip", "retarget"}
 		p.RunP = 0.25
 		p.RecordTasksP = 0.6
+		p.PreCorruptP = 0.08 // what Clean reads from a damaged file must not leak into another file
+		p.PreEditP = 0.12    // blank lines a user added: a rewrite gets shorter than the file was
 		p.CleanP = 1
 		p.SortP = 0.7
 		p.MinTests = 2
@@ -186,6 +198,7 @@ func Preset(prop string, adversarial bool, r *scen.Rand) *Params {
 		p.JSONOpt = 0.4
 		p.UpdateOpt = 0.3
 	case "C17":
+		p.Counts = []int{1, 1, 1, 2, 3}
 		p.APIw = map[string]int{scen.APIJSON: 4, scen.APIYAML: 3, scen.APISJSON: 3, scen.APISnapshot: 1}
 		p.MatcherP = 0.8
 		p.BadMatcherP = 0.5
